@@ -33,7 +33,7 @@ class Maker:
         return r if isinstance(r, list) else [(None, r)]
 
 
-def p_int(lo=None, hi=None):
+def p_int(lo=None, hi=None, default=None):
     def mk(ex, st, name):
         t = z3.Int(name)
         cs = []
@@ -42,7 +42,7 @@ def p_int(lo=None, hi=None):
         if hi is not None:
             cs.append(t <= hi)
         return [(z3.And(cs) if cs else None, VInt(t))]
-    return Maker(mk, desc=f"int[{lo},{hi}]")
+    return Maker(mk, desc=f"int[{lo},{hi}]", default=(lambda ex, st: VInt(default)) if default is not None else None)
 
 
 def _coerce_bv(width):
@@ -145,6 +145,7 @@ class FnReport:
         self.assumed_used = []
         self.exc_any_sites = 0
         self.covers = []
+        self.abstracted = []
 
     def to_dict(self):
         return self.__dict__
@@ -171,6 +172,7 @@ def run_contract(prop: str, c: FnContract, reg: Registry, uni: Universe, *, repo
         rep.paths = ex.paths
         rep.assumed_used = sorted(ex.assumed_used)
         rep.exc_any_sites = len(ex.exc_any_sites)
+        rep.abstracted = sorted(set(ex.abstracted))[:40]
         for h in post_hooks:
             h(ex, c, obls)
     except Unsupported as e:
@@ -289,7 +291,9 @@ def generate(ex: Executor, c: FnContract, mod, fnode):
                         goal = _eq(ex, o.st, val, ops.lift(exp) if not isinstance(exp, V) else exp)
                     ex.add_vc("returns", "", o.st.pc, goal, loc=ex.loc(fnode))
                 for (label, e) in c.ensures:
-                    ex.add_vc("ensures", label, o.st.pc, ex._b(e(cx)), loc=ex.loc(fnode))
+                    cx.note = ""
+                    g_ = ex._b(e(cx))
+                    ex.add_vc("ensures", label, o.st.pc, g_, note=cx.note, loc=ex.loc(fnode))
                 for p, fn in c.final.items():
                     want = list(fn(cx))
                     got = o.st.obj(amap[p].ref).data
@@ -321,6 +325,8 @@ def generate(ex: Executor, c: FnContract, mod, fnode):
                           note=f"exception escaping: site={exc.attrs.get('site', '')}", loc=ex.loc(fnode))
             else:
                 raise Unsupported(f"{o.kind} escaping function body")
+        if n_raise == 0:
+            ex.add_vc("raises", "", [], z3.BoolVal(True), note="no escaping exceptional path", loc=ex.loc(fnode))
         covers.append({"paths_return": n_ret, "paths_raise": n_raise})
         first = False
     if c.returns is not None and "returns" not in "".join(ex.obls):
